@@ -181,35 +181,59 @@ thread_local! {
     static POOL: std::cell::RefCell<Pool> = std::cell::RefCell::new(Pool { free: std::collections::HashMap::new(), bytes: 0 });
 }
 
+// Under Miri: a heap block of exactly the right size (Miri checks bounds byte-precisely), placed so that the data
+// pointer has the *minimal* alignment the element type allows (address = align_of::<T>() modulo 2*align_of::<T>()):
+// any access that assumes more alignment than the caller's slice guarantees is reported by Miri.
 #[cfg(miri)]
 pub struct GuardBuf<T: Copy> {
-    v: Vec<T>,
+    base: *mut u8,
+    layout: std::alloc::Layout,
+    data: *mut T,
+    len: usize,
     _p: PhantomData<T>,
 }
 #[cfg(miri)]
 impl<T: Copy> GuardBuf<T> {
     pub fn new(len: usize, _place: Place, fill: T) -> Self {
-        GuardBuf {
-            v: vec![fill; len],
-            _p: PhantomData,
+        let al = std::mem::align_of::<T>();
+        let bytes = len * std::mem::size_of::<T>();
+        // block = [pad of `al` bytes][data]; block aligned to 2*al  =>  data aligned to exactly al
+        let layout = std::alloc::Layout::from_size_align(bytes + al, 2 * al).unwrap();
+        unsafe {
+            let base = std::alloc::alloc(layout);
+            assert!(!base.is_null());
+            let data = base.add(al) as *mut T;
+            for i in 0..len {
+                data.add(i).write(fill);
+            }
+            GuardBuf { base, layout, data, len, _p: PhantomData }
         }
     }
-    pub fn from_slice(src: &[T], _place: Place) -> Self {
-        GuardBuf {
-            v: src.to_vec(),
-            _p: PhantomData,
+    pub fn from_slice(src: &[T], place: Place) -> Self {
+        if src.is_empty() {
+            let fill: T = unsafe { std::mem::zeroed() };
+            return Self::new(0, place, fill);
         }
+        let mut g = Self::new(src.len(), place, src[0]);
+        g.as_mut_slice().copy_from_slice(src);
+        g
     }
     pub fn as_slice(&self) -> &[T] {
-        &self.v
+        unsafe { std::slice::from_raw_parts(self.data, self.len) }
     }
     pub fn as_mut_slice(&mut self) -> &mut [T] {
-        &mut self.v
+        unsafe { std::slice::from_raw_parts_mut(self.data, self.len) }
     }
     pub fn protect_readonly(&mut self) {}
     pub fn unprotect(&mut self) {}
     pub fn guarded_bytes(&self) -> usize {
-        self.v.len() * std::mem::size_of::<T>()
+        self.len * std::mem::size_of::<T>()
+    }
+}
+#[cfg(miri)]
+impl<T: Copy> Drop for GuardBuf<T> {
+    fn drop(&mut self) {
+        unsafe { std::alloc::dealloc(self.base, self.layout) }
     }
 }
 
@@ -246,7 +270,7 @@ mod crash {
     }
     pub fn install() {
         unsafe {
-            for sig in [11, 7, 4, 8] {
+            for sig in [11, 7, 4, 8, 6] {
                 signal(sig, on_fault as *const () as usize);
             }
         }
